@@ -312,6 +312,8 @@ def check_case(case, ctx):
     ctx.count(f'mode:{mode}')
     if mode == 'tree':
         tree = case['tree']
+        if case.get('ref'):
+            tree = dsl.with_reference(tree, case['ref']) or tree
         o = treecheck.evaluate(tree, case.get('tseed', 0), check_export=True)
         ctx.count(f'outcome:{o.kind.split(":")[0]}')
         if o.kind.startswith('unexpected_exception') or o.kind.startswith('export:') or o.kind == 'not_compilable' or (
@@ -401,7 +403,7 @@ def strategy(spec, ctx):
     if mode == 'tree':
         feats = dsl.swarm_features(ctx.seed, ctx.shard_index)
         return st.fixed_dictionaries({'mode': st.just('tree'), 'tree': dsl.tree_strategy(feats, max_leaves=6),
-                                      'tseed': st.integers(0, 9999)})
+                                      'tseed': st.integers(0, 9999), 'ref': dsl.refspec_strategy(feats)})
     if mode == 'cls':
         return st.fixed_dictionaries({'mode': st.just('cls'), 'expr': cls_expr_strategy()})
     return api_call()
